@@ -1,6 +1,7 @@
 (* Queries over the MemHeap model (C12).  Definitions only.
 
-   (1) Window plumbing: Bucket.get's rounding of the window (datastore.py), and
+   (1) Window plumbing: Bucket.get's conversion of the window edges to UTC and their rounding
+       (datastore.py), and
        q2_query_bucket / q2_query_bucket_eventcount (aw_query/functions.py) reading the
        window back from the namespace strings that query2.query wrote with isoformat().
        iso8601.parse_date and datetime.isoformat are Section variables.
@@ -16,14 +17,20 @@ From Coq Require Import Arith.
 Definition adt := (Z * Z)%type.
 Definition us_field (d : adt) : Z := (fst d + snd d) mod 1000000.   (* .microsecond *)
 
+(* x.astimezone(timezone.utc): since 49e3288 Bucket.get converts an aware window edge to UTC
+   before the rounding arithmetic (same instant, utcoffset 0) *)
+Definition to_utc (d : adt) : adt := (fst d, 0).
+
 (* starttime.replace(microsecond=1000 * int(starttime.microsecond / 1000)) *)
 Definition round_start (d : adt) : Z :=
+  let d := to_utc d in
   let us := us_field d in fst d - us + 1000 * (us / 1000).
 
 (* milliseconds = 1 + int(us/1000); second_offset = int(milliseconds/1000);
    microseconds = (1000*milliseconds) % 1000000;
    endtime.replace(microsecond=microseconds) + timedelta(seconds=second_offset) *)
 Definition round_end (d : adt) : Z :=
+  let d := to_utc d in
   let us := us_field d in
   let ms := 1 + us / 1000 in
   let so := ms / 1000 in
